@@ -1545,14 +1545,14 @@ func (x *Exec) inlineCall(st *State, call *ast.CallExpr, decl *ast.FuncDecl, env
 			if val.K == KSym && isRoleName(val.S) {
 				if o := x.P.Info.Defs[b.id]; o != nil {
 					vk := x.P.VarKey(o)
-					if cur, has := x.Alias[vk]; !has {
-						x.SetAlias(o, val.S)
-						key = x.canonEnv(b.id, nil)
-					} else if cur != val.S {
+					if cur, has := x.Alias[vk]; has && cur != val.S {
 						return nil, false // conflicting roles at different call sites: keep the call opaque
-					} else {
-						key = x.canonEnv(b.id, nil)
 					}
+					// the parameter is the caller's role under another spelling: nothing to
+					// bind (and nothing known about the role is forgotten)
+					x.SetAlias(o, val.S)
+					next = append(next, c)
+					continue
 				}
 			}
 			n := x.kill(c, key, tok)
